@@ -153,6 +153,8 @@ Alphabet(s) ==
 
 Enabled(s, a) ==
     /\ a.t = "block" => s.height < MaxHeight
+    /\ (Mode = "C32" /\ ~Rich /\ a.t = "quit") => s.signs # {}       \* quick: the epoch change happens between approvals
+    /\ (Mode = "C32" /\ ~Rich /\ a.t = "commit") => \E e \in s.pool : e.st = "quit"
     /\ a.t = "relreg" => s.relAid < MaxId
     /\ a.t = "relrem" => s.relRid < MaxId
     /\ a.t = "svreg" => s.svAid < MaxId
@@ -163,7 +165,7 @@ Enabled(s, a) ==
     /\ (IsApprove(a) /\ a.m = M_SVREM) => a.id < s.svRid
 
 Emit(a) ==
-    ~EmitOn \/ PrintT(<<"EDGE", ToJson([h |-> hist, a |-> a, r |-> R'.r, s |-> R.s, t |-> R'.s])>>)
+    ~EmitOn \/ PrintT(<<"EDGE", ToJson([h |-> hist, a |-> a, r |-> R'.r, s |-> R.s, t |-> R'.s, g |-> G])>>)
 
 \* R = [r, s]: result of the last step and the storage record (Step is evaluated once per edge)
 Next == \E a \in Alphabet(R.s) :
@@ -177,12 +179,12 @@ Next == \E a \in Alphabet(R.s) :
 Spec == Init /\ [][Next]_vars
 View == <<R.s, G, bad>>
 
-\* C32: at most two (method, request) sign sets at a time, the second one with a single approver v1 or x
+\* C32: at most two (method, request) sign sets at a time, the second one with the single approver v1
 TwoLabels == LET ne == R.s.signs
-             IN Cardinality(ne) <= 2 /\ (Cardinality(ne) = 2 => \E x \in ne : Cardinality(x.by) = 1 /\ x.by \subseteq {"v1", "x"})
+             IN Cardinality(ne) <= 2 /\ (Cardinality(ne) = 2 => \E x \in ne : Cardinality(x.by) = 1 /\ x.by = {"v1"})
 Bound == /\ R.s.view <= MaxView
          /\ Cardinality(UNION {{<<x.m, x.q, b>> : b \in x.by} : x \in R.s.signs}) <= MaxSigns
-         /\ (Mode = "C32" /\ ~Rich) => TwoLabels
+         /\ (Mode = "C32") => TwoLabels
 
 (* the properties, on the model *)
 Clauses(p) == {c \in bad : c.p = p}
